@@ -257,8 +257,16 @@ func checkErrorResponse(c *reqgen.Config, v *reqgen.Verdict, b *reqgen.Built, o 
 	return ""
 }
 
+// sigUnicodeFold: an Upgrade value that equals "websocket" only under Unicode
+// simple case folding (LONG S, KELVIN SIGN) is accepted by both upgraders.
+const sigUnicodeFold = "C09/upgrade-value-unicode-fold"
+
 // judge applies the property to one executed case; "" means it held.
 func judge(c *reqgen.Config, v *reqgen.Verdict, b *reqgen.Built, o outcome) string {
+	if v.UnicodeFoldUpgrade && hx.Known(sigUnicodeFold) {
+		hx.Exclude(sigUnicodeFold)
+		return ""
+	}
 	if o.err != nil && has101(o.out) {
 		return fmt.Sprintf("failure (%v) but a 101 response was written", o.err)
 	}
@@ -642,6 +650,26 @@ func TestKnownFindings(t *testing.T) {
 	hx.Probe(t, "C09/request-version-nondigit",
 		fmt.Sprintf("Upgrader.Upgrade accepted request version token(s) %q containing non-digit bytes", accepted),
 		len(accepted) > 0, map[string]interface{}{"request": string(reqgen.Valid("/", "example.com", gridKey).Render()), "version_tokens_accepted": accepted})
+
+	// C09/upgrade-value-unicode-fold (fixed in /repo 20e9951)
+	probeUnicodeFold(t)
+}
+
+func probeUnicodeFold(t *testing.T) {
+	var accepted []string
+	for _, kind := range []reqgen.Kind{reqgen.Raw, reqgen.HTTP} {
+		for _, val := range []string{"web\u017focket", "websoc\u212aet", "WEB\u017fOC\u212aET"} {
+			r := reqgen.Valid("/", "example.com", gridKey).Set(reqgen.NameUpgrade, val)
+			o, ok := runDefault(kind, r.Render())
+			hx.Eval()
+			if ok && (o.err == nil || has101(o.out)) {
+				accepted = append(accepted, fmt.Sprintf("%s:%q", kind, val))
+			}
+		}
+	}
+	hx.Probe(t, sigUnicodeFold,
+		fmt.Sprintf("request with an Upgrade value that is not websocket in any letter case but matches under Unicode case folding is upgraded (101): %v", accepted),
+		len(accepted) > 0, map[string]interface{}{"request": string(reqgen.Valid("/", "example.com", gridKey).Set(reqgen.NameUpgrade, "web\u017focket").Render()), "accepted": accepted})
 }
 
 // ---------------------------------------------------------------------------
